@@ -90,9 +90,10 @@ CLAIM = {
              "subset as the oracle. Not proved: buffer-boundary effects (BOM split across the 8 KiB buffer) are outside the model; the "
              "line stamps of the round trip are given exactly for LF-terminated text only (for CRLF / CR the general bounds and the "
              "witness apply); non-canonical texts (stray quotes, text after a closing quote, blank lines) are covered by the general "
-             "theorems (totality, count, bounds, field boundaries) and by the correspondence stream, not by a round trip. Known finding F41 (third session): with credit / debit columns the credit cell wins whenever it is not empty, so a row `0.00 | 400.00` "
-             "is booked as 0.00 - C16_credit_zero_loses_debit (a kernel-checked run of the model on that row) and not_C16_credit_minus_debit "
-             "(the statement `amount = credit - debit` is refuted); the witness statement is replayed on the real importer on every run."),
+             "theorems (totality, count, bounds, field boundaries) and by the correspondence stream, not by a round trip. Finding F41 (third session, fixed by 096780e): with credit / debit columns the credit cell used to win whenever it was not empty, so a row "
+             "`0.00 | 400.00` was booked as 0.00; now the debit is booked when the credit cell holds a zero (CreditDebitRule in C16_sign_credit_debit, "
+             "C16_credit_debit_written, C16_sign_file; C16_both_cells_filled: the witness rows as a kernel-checked run of the model); the witness "
+             "statement runs first on every check and both mirror classes (a zero in the other cell) are generated."),
     "note": "YAML decoding, chrono date parsing and the regex engine are parameters of the model (decoded by the real "
             "libraries in the harness); the csv crate's record splitting is modelled (Model/CsvText.lean) and compared on every case, "
             "the main driver mode still takes the crate's cells while `drv csvtext` splits the text itself; okane's CLI decodes the "
@@ -114,7 +115,7 @@ THEOREMS = ["Okane.Import.C16_sign_credit_debit", "Okane.Import.C16_sign_amount"
             "Okane.Import.C16_inexact_conversion_rejected",
             "Okane.Import.C16_cell_total", "Okane.Import.C16_cell_accepts_exactly", "Okane.Import.C16_cell_minus_signs",
             "Okane.Import.C16_amount_written", "Okane.Import.C16_credit_debit_written",
-            "Okane.Import.C16_credit_zero_loses_debit", "Okane.Import.not_C16_credit_minus_debit",
+            "Okane.Import.C16_both_cells_filled", "Okane.Import.CellsUse.sign_credit_debit",
             "Okane.Import.C16_template_accepts_exactly", "Okane.Import.C16_template_round_trip",
             "Okane.Import.C16_template_rejects", "Okane.Import.Cells.C16_cell_complete", "Okane.Import.Cells.C16_cell_reject",
             "Okane.Import.Cells.C16_cell_value", "Okane.Import.Cells.templateParse_total",
@@ -386,7 +387,8 @@ def make_case(rng, sw, nrows, cid):
             neg_zero = c.account_type == "asset"
         a = D(cents < 0 or neg_zero, abs(cents) // (10 ** (2 - scale)), scale)
         r["a"] = a
-        r["zero_other"] = rng.choice(["0.00", "0", "0.0"]) if (c.value_mode == "credit_debit" and not a.neg and cents != 0 and rng.random() < 0.25) else None
+        # a statement that fills BOTH cells: a literal zero in the other cell changes nothing, on a credit row and (since fix F41) on a debit row
+        r["zero_other"] = rng.choice(["0.00", "0", "0.0"]) if (c.value_mode == "credit_debit" and cents != 0 and rng.random() < 0.25) else None
         bal[com] += cents
         r["bal"] = D.cents(bal[com])
         r["bal_cents"] = bal[com]
@@ -485,11 +487,13 @@ def render(rng, c):
                     v = fmt_amount(rng, shown, r["commodity"])
             elif k == "credit":
                 v = fmt_amount(rng, D(False, r["a"].mant, r["a"].scale), r["commodity"]) if not r["a"].neg else ""
+                if r["a"].neg and r.get("zero_other"):
+                    v = r["zero_other"]
             elif k == "debit":
                 v = fmt_amount(rng, D(False, r["a"].mant, r["a"].scale), r["commodity"]) if r["a"].neg else ""
                 if not r["a"].neg and r.get("zero_other"):
                     # a statement that fills both cells: a literal zero in the debit cell of a credit row changes nothing
-                    # (the mirror image - a zero in the CREDIT cell of a debit row - is known finding F41)
+                    # (the mirror image - a zero in the CREDIT cell of a debit row - was finding F41, fixed by 096780e)
                     v = r["zero_other"]
             elif k == "balance":
                 v = fmt_amount(rng, r["bal"], r["commodity"])
@@ -1085,25 +1089,22 @@ def run(chk):
             if p[0] == "err" and p[2] == "UnbalancedPostings":
                 chk.known_finding(kf["id"], kf_what[kf["id"]] % f.get("proc"))
             chk.streams["known-finding-replays"] = chk.streams.get("known-finding-replays", 0) + 1
-        if kf["id"] == "F41":
+    # ---------------- witness of fixed finding F41 (a debit row whose credit cell holds 0.00): must pass now
+    import json as _json
+    for kf in _json.load(open(os.path.join(os.path.dirname(os.path.dirname(os.path.abspath(__file__))), "known_findings.json")))["findings"]:
+        if kf["id"] == "F41" and kf["status"] == "fixed":
             w = kf["witness"]
             out = run_sharded(HX, ["c16"], ["kf41 cfg=%s src=%s fund=%s" % (enc(w["config_yaml"]), enc(w["csv"]), enc(w["fund"]))], 1)
             _, f = split_fields(out[0])
             p = parse_proc_impl(f.get("proc", "-"))
-            try:
-                ist, itx = parse_import(f.get("import", "(missing)"))
-            except Exception:      # noqa
-                ist, itx = "unparsed", []
-            lost = ist == "ok" and len(itx) == 2 and any(q["account"] == "Assets:Bank" and q["amount"]["value"] == 0 for q in itx[1]["posts"])
-            if lost and p[0] == "err":
-                chk.known_finding("F41", "CSV import with credit / debit columns books a debit row as 0.00 when its credit cell holds `0.00` "
-                                         "(the credit cell wins whenever it is not empty); okane's own book-keeping rejects the ledger imported "
-                                         "from the consistent statement (%s)" % f.get("proc", "")[:120])
-            else:
-                chk.violation("known finding F41 no longer reproduces as recorded (update known_findings.json): import=%s proc=%s" %
-                              (f.get("import", "")[:200], f.get("proc", "")[:120]), {"witness": w, "observed": out[0][:2000]},
-                              no_failing_input=True, tag="known")
-            chk.streams["known-finding-replays"] = chk.streams.get("known-finding-replays", 0) + 1
+            ok = p[0] == "ok" and p[1].get("Assets:Bank", {}).get("CHF", Fraction(0)) == Fraction(w["expected_final"])
+            chk.case(("corpus", "F41"))
+            chk.streams["corpus"] = chk.streams.get("corpus", 0) + 1
+            if not ok:
+                chk.oracle_failures += 1
+                chk.violation("witness of fixed finding F41 fails again: a debit row whose credit cell holds 0.00 is not booked as the debit (%s)" %
+                              f.get("proc", "")[:160], {"config_yaml": w["config_yaml"], "csv": w["csv"], "fund": w["fund"],
+                                                        "observed_import": f.get("import"), "observed_proc": f.get("proc")})
     # ---------------- main stream
     cases = build_cases(chk)
     mal = malformed_cases(chk)
